@@ -386,7 +386,7 @@ func (s *c16Side) ValidateOrderedTicket(t *sidecar.Ticket) error {
 		err = errors.New("scripted validate failure")
 	default:
 		// the real thing: real signer, real store
-		err = pool.VerifValidateOrderedTicket(context.Background(), t, s.w.k.signer, s.db)
+		err = pool.VerifC16ValidateOrderedTicket(context.Background(), t, s.w.k.signer, s.db)
 	}
 	s.eff("val:" + tk + ":" + b01(err == nil))
 	return err
@@ -1550,9 +1550,9 @@ func c16Step(w *c16World, prov bool, cur int, recvTok, provTok string, sc *c16Sc
 			}
 		}()
 		if prov {
-			out, err = neg.VerifStepProvider(context.Background(), pkt, k.newBid(), k.acct)
+			out, err = neg.VerifC16StepProvider(context.Background(), pkt, k.newBid(), k.acct)
 		} else {
-			out, err = neg.VerifStepRecipient(context.Background(), pkt)
+			out, err = neg.VerifC16StepRecipient(context.Background(), pkt)
 		}
 	}()
 	effs := w.takeEffs()
@@ -1572,7 +1572,7 @@ func c16Step(w *c16World, prov bool, cur int, recvTok, provTok string, sc *c16Sc
 	effs = strip(effs)
 	if err == nil && out.CurrentState == sidecar.StateCanceled {
 		// the clause spawned `go a.TicketExecuted(StateCanceled, true)`
-		st, other, ok := neg.VerifTakeFinalization(2 * time.Second)
+		st, other, ok := neg.VerifC16TakeFinalization(2 * time.Second)
 		if ok && st == sidecar.StateCanceled && other {
 			if effs == "-" {
 				effs = "spawn"
